@@ -119,6 +119,20 @@ def h_concrete_redundant_ranks(ctx):
         back = teneva.qtt_to_tt(Q, qs[0]) if len(set(qs)) == 1 else None
         if back is not None:
             ok_val = ok_val and np.linalg.norm(teneva.full(back) - F) <= 1e-8 * max(1., np.linalg.norm(F))
+    # cores of integer dtype (q >= 2) and a mode of size 512 (q = 9)
+    Yi = [np.array([[[1, 0], [2, 1], [0, 3], [1, 1]]]), np.array([[[2], [1], [0], [3]], [[1], [1], [2], [0]]])]
+    Q = teneva.tt_to_qtt(Yi)
+    Fi = teneva.full(Yi)
+    ok_val = ok_val and np.linalg.norm(teneva.full(Q).reshape(Fi.shape, order='F') - Fi) <= 1e-10 * np.linalg.norm(Fi)
+    ok_val = ok_val and np.linalg.norm(teneva.full(teneva.qtt_to_tt(Q, 2)) - Fi) <= 1e-10 * np.linalg.norm(Fi)
+    for nbig in (512, 1024):
+        Yb = [np.cos(np.arange(nbig) / 50.).reshape(1, nbig, 1), np.sin(np.arange(4) + 1.).reshape(1, 4, 1)]
+        try:
+            Qb = teneva.tt_to_qtt(Yb, e=1e-12)
+            Fb = teneva.full(Yb)
+            ok_val = ok_val and np.linalg.norm(teneva.full(Qb).reshape(Fb.shape, order='F') - Fb) <= 1e-8 * np.linalg.norm(Fb)
+        except ValueError:
+            ok_val = False          # a power of two was rejected
     ctx.claim('bonds_between_modes_keep_tt_ranks', bool(ok_rank))
     ctx.claim('values_preserved', bool(ok_val))
 
